@@ -1148,3 +1148,16 @@ package larking
 //@   assert at "header[textproto.CanonicalMIMEHeaderKey(k)] = vs" [reserved-keys-not-forgeable C14] !ProtocolKey(k)
 //@ func newIncomingContext serves C14 partial ghost
 //@   assert at "md[k] = vs" [protocol-keys-not-injected C14] !ProtocolKey(k)
+
+// The path and query parameters are applied after the body has been decoded
+// (so a body value for a path-bound field cannot survive), on the first message
+// only, and exactly once (C07).
+//@ func (*streamHTTP).RecvMsg serves C07 partial ghost post
+//@   returns (err)
+//@   requires s != nil && s.method != nil && impl(m, "proto.Message")
+//@   ghost hb = s.method.hasBody && s.hasBody
+//@   ghost first = s.recvCount == 0
+//@   count decodes `s.decodeRequestArgs(`
+//@   count sets `s.params.set(`
+//@   assert atcall `s.params.set(` [params-after-body C07] (hb ==> decodes == 1) && sets == 0
+//@   ensures [params-applied-to-the-first-message C07] err == nil && first && !hb ==> sets == 1
